@@ -149,7 +149,56 @@ def draw_functional(cs, sc):
         spec["product"] = cs.choice(["mv", "rmv", "fullmatrix", "mm", "rmm", "H.mv", "solve"], "prod")
     elif F == "hess":
         spec["product"] = cs.choice(["mv", "fullmatrix", "rmv"], "prod")
+    spec["knobs"] = draw_knobs(cs, spec)
     return spec
+
+
+def draw_knobs(cs, spec):
+    """tuning knobs of the chosen method, randomised per run (first alternative = the default):
+    correctness must not silently depend on one configuration"""
+    F, m = spec["F"], spec.get("method")
+    k = {}
+    if not cs.bool("knobs", 1, 2):
+        return k
+    if m in ("broyden1", "broyden2") and F != "symeig":
+        mr = cs.choice([None, 1, 2, 4], "max_rank")
+        if mr is not None:
+            k["max_rank"] = mr
+        if F != "solve":
+            if cs.bool("no_line_search", 1, 3):
+                k["line_search"] = False
+            if cs.bool("alpha", 1, 3):
+                k["alpha"] = -0.7
+    elif m == "linearmixing":
+        if cs.bool("alpha", 1, 2):
+            k["alpha"] = -0.6
+    elif m == "anderson_acc":
+        ms = cs.choice([None, 1, 2], "msize")
+        if ms is not None:
+            k["msize"] = ms
+        if cs.bool("beta", 1, 2):
+            k["beta"] = 0.7
+    elif m in ("gd", "adam"):
+        if cs.bool("step", 1, 2):
+            k["step"] = 0.05
+    elif F == "solve" and m in ("cg", "bicgstab"):
+        if cs.bool("posdef", 1, 2):
+            k["posdef"] = True
+        if cs.bool("rtol", 1, 2):
+            k["rtol"] = 1e-9
+    elif F == "symeig" and m == "davidson":
+        if cs.bool("max_addition", 1, 2):
+            k["max_addition"] = 1
+        if cs.bool("nguess", 1, 2):
+            k["nguess"] = 2
+    elif F == "solve_ivp" and m in ("rk45", "rk23"):
+        if cs.bool("tol", 1, 2):
+            k["rtol"] = 1e-4
+    elif F == "quad":
+        n = cs.choice([None, 3, 6], "quad_n")
+        if n is not None:
+            k["n"] = n
+    return k
 
 
 def build_env(sc):
@@ -285,20 +334,22 @@ def run_functional(env, spec):
     n = env.n
     s = env.s
     wts = torch.linspace(0.5, 1.5, n, dtype=AC.DT)
+    kn = dict(spec.get("knobs") or {})
     if F in ("rootfinder", "reentrant"):
         f = get_fcn(env, method_name_of(spec))
         bck = {"method": spec["bck"]} if spec["bck"] else {}
-        y = xo.rootfinder(f, env.y0, params=(s,), method=spec["method"], bck_options=bck, maxiter=40)
+        y = xo.rootfinder(f, env.y0, params=(s,), method=spec["method"], bck_options=bck, maxiter=40, **kn)
         return (y * wts).sum()
     if F == "equilibrium":
         f = get_fcn(env, "f_equil")
         bck = {"method": spec["bck"]} if spec["bck"] else {}
-        y = xo.equilibrium(f, env.y0, params=(s,), method=spec["method"], bck_options=bck, maxiter=40)
+        y = xo.equilibrium(f, env.y0, params=(s,), method=spec["method"], bck_options=bck, maxiter=40, **kn)
         return (y * wts).sum()
     if F == "minimize":
         f = get_fcn(env, "f_min")
         bck = {"method": spec["bck"]} if spec["bck"] else {}
         opts = {"maxiter": 12, "step": 0.1} if spec["method"] in ("gd", "adam") else {"maxiter": 40}
+        opts.update(kn)
         y = xo.minimize(f, env.y0, params=(s,), method=spec["method"], bck_options=bck, **opts)
         return (y * wts).sum()
     if F == "solve_ivp":
@@ -307,6 +358,7 @@ def run_functional(env, spec):
             ts = ts.flip(0).contiguous()
         ts = ts.requires_grad_(spec["ts_grad"])
         opts = {"atol": 1e-6, "rtol": 1e-5} if spec["method"] in ("rk23", "rk45") else {}
+        opts.update(kn)
         if spec["tuple"]:
             f = get_fcn(env, "f_ode_tuple", allow_multi=False)
             y0 = (env.y0, torch.ones(2, dtype=AC.DT))
@@ -326,7 +378,7 @@ def run_functional(env, spec):
             xl_, xu_ = torch.tensor(0.0, dtype=AC.DT), torch.tensor(1.0, dtype=AC.DT).requires_grad_()
         else:
             xl_, xu_ = 0.0, float("inf")
-        y = xi.quad(f, xl_, xu_, params=(s,), n=4)
+        y = xi.quad(f, xl_, xu_, params=(s,), n=kn.get("n", 4))
         return (y * wts).sum()
     if F == "mcquad":
         a = env.actors[0]
@@ -373,11 +425,12 @@ def run_functional(env, spec):
     if F == "solve":
         E = torch.tensor([0.1, -0.2], dtype=AC.DT) if spec["E"] else None
         bck = {"method": spec["bck"]} if spec["bck"] else {}
-        x = xl.solve(A, B, E=E, method=spec["method"], bck_options=bck)
+        x = xl.solve(A, B, E=E, method=spec["method"], bck_options=bck, **kn)
         return (x * x).sum()
     if F == "symeig":
         ne = min(spec["neig"], n)
         opts = {"max_niter": 30} if spec["method"] == "davidson" else {}
+        opts.update(kn)
         ev, evec = xl.symeig(A, neig=ne, method=spec["method"], **opts)
         return ev.sum() + (evec.abs() ** 2 * torch.linspace(1, 2, n, dtype=AC.DT).unsqueeze(-1)).sum()
     if F == "svd":
